@@ -10,6 +10,7 @@ mod gradual;
 mod lifecycle;
 mod modsrep;
 mod scoregen;
+mod session;
 mod settings;
 mod strains;
 mod strainsvec;
@@ -31,6 +32,9 @@ fn main() {
         "builders-replay" => builders::main(rest),
         "attrs-replay" => attrs::main(rest),
         "dump-results" => dump::main(rest),
+        "bpm-replay" => session::bpm_main(rest),
+        "session-record" => session::record_main(rest),
+        "threads-record" => session::threads_main(rest),
         "strains-replay" => strains::main(rest),
         "lifecycle-replay" => lifecycle::main(rest),
         "pathbuf-replay" => lifecycle::pathbuf_main(rest),
